@@ -1,4 +1,5 @@
 import Operon.Lemmas.C05
+import Operon.Lemmas.C05Conserve
 import Operon.Gen.AtpLocks
 /-!
 # C05 — energy store operations are atomic under every thread interleaving
@@ -136,6 +137,33 @@ theorem c05_spends_bounded_by_available (cls : Classifier) (obs : Nat → Obs) (
   unfold pot at h
   omega
 
+/-- **Nothing is created, no transfer duplicates energy — under every interleaving, across all stores.**  Threads run
+    programs of API calls (`ACfg.ofCalls`) on stores `0 .. N-1`.  At every point reached, whatever the order in which
+    the critical regions ran (the two halves of a `transfer_to` may be arbitrarily far apart, other calls in between):
+    what the stores hold (`held` = net worth + what was charged to successful spends, summed over the stores) plus the
+    energy in flight between the halves of unfinished transfers plus what the `regenerate` calls still to run may add
+    (`energy`) is at most its initial value.  Regeneration is the only source. -/
+theorem c05_nothing_is_created (cls : Classifier) (obs : Nat → Obs) (N : Nat) (st : Nat → Store)
+    (progs : List (List Call)) (hN : ∀ p ∈ progs, ∀ c ∈ p, ∀ a ∈ c.acts, a.lock < N)
+    (ac : ACfg) (hs : Star (ActStep cls obs) (ACfg.ofCalls st progs) ac) :
+    energy N ac ≤ energy N (ACfg.ofCalls st progs) :=
+  (actstar_conserves cls obs N _ ac (ofCalls_inv N st progs hN) hs).2
+
+/-- Corollary in the property's words: at every point, net worth of all stores plus everything charged to successful
+    spends is bounded by the initial net worth (plus what had been charged before) plus the total of all `regenerate`
+    amounts of the programs — transfers and conversions only move energy, concurrent spends are never served from
+    the same unit twice. -/
+theorem c05_holdings_plus_spends_bounded (cls : Classifier) (obs : Nat → Obs) (N : Nat) (st : Nat → Store)
+    (progs : List (List Call)) (hN : ∀ p ∈ progs, ∀ c ∈ p, ∀ a ∈ c.acts, a.lock < N)
+    (ac : ACfg) (hs : Star (ActStep cls obs) (ACfg.ofCalls st progs) ac) :
+    heldSum N ac.st ≤ heldSum N st + regenTotal progs := by
+  have h := c05_nothing_is_created cls obs N st progs hN ac hs
+  have hc := credit_nonneg ac.threads
+  unfold energy at h
+  rw [credit_ofCalls] at h
+  simp only [ACfg.ofCalls] at h
+  omega
+
 /-- **Per-call atomicity, partial**: every call other than `transfer_to` is a single critical region, so for
     programs without transfers the atomic actions ARE the calls and `c05_serializable` is serializability of
     the calls.  (`transfer_to` is two regions: see the witness below.) -/
@@ -185,6 +213,11 @@ theorem c05_transfer_not_atomic_witness :
 
 /-- a faithful cut exists (one line per region), and a two-line cut of `consume`-like bodies is faithful too -/
 example (cls : Classifier) (obs : Nat → Obs) : Cut.Faithful cls obs (fun a => [body cls obs a]) := fun _ => rfl
+
+/-- programs meeting the hypothesis of the conservation theorems: two stores, opposite-direction transfers, a spend,
+    a regeneration and a pass of a background regeneration loop (`tickCall`) -/
+example : ∀ p ∈ [[Call.transfer 0 1 3 .atp, Call.consume 0 2 .atp true 5], [Call.transfer 1 0 4 .gtp, Call.regenerate 1 2 .atp],
+    [tickCall 0 5]], ∀ c ∈ p, ∀ a ∈ c.acts, a.lock < 2 := by decide
 
 /-- a configuration meeting the hypotheses of the invariant theorems: two stores built by the constructor -/
 example : (∀ j, (st0 j).WF ∧ (st0 j).debt ≤ (st0 j).maxDebt) := by
